@@ -74,6 +74,17 @@ def check_values(res, f, label, merged_truths=None):
         wm = first('whitening_mat.npy')
         wmi = np.linalg.inv(wm) if wm is not None else np.eye(nc)
     Cw = extra['cluster_waveforms'].astype(np.float64)
+    # the cluster waveforms themselves follow C08's definition (checked here independently of the
+    # model for clusters with a unique dominant template, on the dominant template's channels)
+    from . import c08
+    shanks_ = first('channel_shanks.npy')
+    shanks_ = shanks_.squeeze() if shanks_ is not None else np.zeros(nc)
+    for c, (D, expw) in c08.reference_cluster_waveforms(T, st, sc, pos, shanks_, extra['n_closest']).items():
+        if c < Cw.shape[0] and not np.allclose(Cw[c][:, D], expw, rtol=1e-5, atol=1e-6):
+            bad.append(('clusters.waveforms', 'cluster-waveform-definition',
+                        {'cluster': int(c), 'channels': D, 'mean': describe(expw)},
+                        describe(Cw[c][:, D])))
+            break
     ncw = min(extra['n_closest'], nc)
     y = pos[:, 1]
 
@@ -176,6 +187,14 @@ def run_case(case, acc, order):
         spec = c13.make_spec(cfg, case['fill'])
         spec['probes'] = case.get('probes', 'absent')
         spec['sample_rate'] = case.get('sample_rate', 100.0)
+        if case.get('wide'):
+            st_w = [0, 1, 2, 3, 3, 0, 3, 2]            # template 3 dominates the merge of 2 and 3
+            # peaks far apart (channels 6, 0, 12, 13), so that the 12-channel neighbourhoods differ
+            prof = []
+            for pk in (6, 0, 12, 13):
+                prof.append([float(20 - abs(c - pk)) for c in range(14)])
+            spec.update(n_channels=14, geometry='col14', spike_templates=st_w, profile=prof,
+                        spike_clusters=[4 if x in (2, 3) else x for x in st_w])
         if case.get('n_spikes'):
             # beyond one 50 000-spike batch of get_depths
             spec.update(n_spikes=case['n_spikes'], spike_templates=None, spike_clusters='same')
@@ -235,6 +254,11 @@ def explore(ctx):
     cases.append({'kind': 'single', 'cfg': dict(default, features='sparse', raw=False), 'factor': 1,
                   'label': '', 'probes': 'absent', 'sample_rate': 30000.0, 'fill': ctx.seed,
                   'n_spikes': 50007})
+    # a curated 14-channel source: merged cluster whose dominant template is not the first contributor
+    for f in (1, 2.5):
+        cases.append({'kind': 'single', 'cfg': dict(default, features='absent', raw=False), 'factor': f,
+                      'label': '', 'probes': 'absent', 'sample_rate': 100.0, 'fill': ctx.seed,
+                      'wide': True})
     ctx.run_cases(run_case, cases, sweep='single-probe-sources')
     cases = []
     fam = [0, 1, 2, 4, 5]
